@@ -466,7 +466,8 @@ structure FinishSpec (c : Cfg) (p : Plan) (r : Result) : Prop where
 
 theorem finish_spec (c : Cfg) (p : Plan) (r : Result) (h : finish c p = some r) : FinishSpec c p r := by
   unfold finish at h
-  simp only [] at h
+  -- the pending cancellation was consumed: the truncated clean-up cannot happen
+  simp only [consumePending, Bool.false_and, Bool.false_eq_true, if_false] at h
   split at h
   · simp at h
   · next hp =>
